@@ -108,6 +108,10 @@ type gen struct {
 	vars       map[string]ast.Expr // package-level var initialisers (tables)
 	want       map[string]FuncSpec
 	usedConsts map[string]bool
+	followed   []string          // auto-followed callees (not listed in the unit), in order of discovery
+	skipped    []string          // functions left out because they could not be translated
+	pending    []string          // definitions of auto-followed callees waiting to be emitted in front of their caller
+	repo       string
 }
 
 type tr struct {
@@ -536,10 +540,47 @@ func (t *tr) expr(e ast.Expr) string {
 			}
 			return "(" + ln + " " + strings.Join(args, " ") + ")"
 		}
+		if _, isId := x.Fun.(*ast.Ident); isId && t.g.follow(name, "") {
+			return "(" + t.g.leanName(name) + " " + strings.Join(args, " ") + ")"
+		}
 		t.fail(e, "call to %s: not in the translated set nor in callmap", name)
 	}
 	t.fail(e, "unsupported expression %T", e)
 	return ""
+}
+
+// where: the source file (relative to the repository) of a position; line numbers are left out on purpose so
+// that generated text does not change when unrelated lines move.
+func (g *gen) where(p token.Pos) string {
+	f := g.fset.Position(p).Filename
+	if rel, err := filepath.Rel(g.repo, f); err == nil {
+		return rel
+	}
+	return f
+}
+
+// follow translates a plain same-package function that a translated body calls although the unit does not list
+// it (typically a helper a refactor extracted), under its Go name; its definition is emitted in front of the caller.
+func (g *gen) follow(name, mode string) bool {
+	if _, ok := g.want[name]; ok {
+		return true
+	}
+	cd, ok := g.funcs[name]
+	if !ok || cd.Recv != nil || cd.Body == nil {
+		return false
+	}
+	g.want[name] = FuncSpec{Go: name, Mode: mode}
+	done := false
+	defer func() {
+		if !done { // the callee itself cannot be translated: as if it had not been tried
+			delete(g.want, name)
+		}
+	}()
+	txt := g.translate(g.want[name])
+	done = true
+	g.followed = append(g.followed, name)
+	g.pending = append(g.pending, txt)
+	return true
 }
 
 func (g *gen) leanName(goName string) string {
@@ -1201,7 +1242,7 @@ func (g *gen) translateAssign(fs FuncSpec) string {
 	for _, el := range t.elems {
 		params = append(params, "("+el+" : Int)")
 	}
-	doc := fmt.Sprintf("/-- generated from the right-hand side of `%s = …` in %s (%s) -/\n", fs.Target, fs.Go, g.fset.Position(rhs.Pos()))
+	doc := fmt.Sprintf("/-- generated from the right-hand side of `%s = …` in %s (%s) -/\n", fs.Target, fs.Go, g.where(rhs.Pos()))
 	return doc + "def " + fs.Lean + " " + strings.Join(params, " ") + " : Int :=\n  " + e + "\n"
 }
 
@@ -1344,7 +1385,7 @@ func (g *gen) translateLoop(fs FuncSpec) string {
 	for i := range ts {
 		ts[i] = "Int"
 	}
-	doc := fmt.Sprintf("/-- generated from the body of loop %d of %s (%s); result = stored elements %v -/\n", fs.Loop, fs.Go, g.fset.Position(fd.Pos()), t1.stored)
+	doc := fmt.Sprintf("/-- generated from the body of loop %d of %s (%s); result = stored elements %v -/\n", fs.Loop, fs.Go, g.where(fd.Pos()), t1.stored)
 	return doc + "def " + fs.Lean + " " + strings.Join(params, " ") + " : " + strings.Join(ts, " × ") + " :=\n" + txt
 }
 
@@ -1486,7 +1527,7 @@ func (g *gen) translate(fs FuncSpec) string {
 		}
 	}
 	body := namedInit + t.block(fd.Body.List, fin, "  ")
-	doc := fmt.Sprintf("/-- generated from %s (%s) -/\n", g.fset.Position(fd.Pos()), fs.Go)
+	doc := fmt.Sprintf("/-- generated from %s (%s) -/\n", g.where(fd.Pos()), fs.Go)
 	return doc + "def " + g.leanName(fs.Go) + " " + strings.Join(params, " ") + " : " + ret + " :=\n" + body
 }
 
@@ -1667,7 +1708,7 @@ func (g *gen) table(name string) string {
 		}
 	}
 	var b strings.Builder
-	fmt.Fprintf(&b, "/-- generated from %s -/\ndef %s : %s := #[", g.fset.Position(e.Pos()), name, ty)
+	fmt.Fprintf(&b, "/-- generated from %s -/\ndef %s : %s := #[", g.where(e.Pos()), name, ty)
 	for i, s := range els {
 		if i > 0 {
 			b.WriteString(", ")
@@ -1741,22 +1782,53 @@ func (g *gen) emit() string {
 			visit(f.Go)
 		}
 	}
+	// one function that cannot be translated does not take the unit's other definitions down: it is left out
+	// (with a comment), so exactly the Lean files that use it stop building
+	guarded := func(name string, f func() string) string {
+		var out string
+		func() {
+			defer func() {
+				if r := recover(); r != nil {
+					if us, ok := r.(unsupported); ok {
+						g.skipped = append(g.skipped, name+": "+us.msg)
+						g.pending = nil
+						out = "-- UNTRANSLATED " + name + ": " + strings.ReplaceAll(us.msg, "\n", " ") + "\n"
+						return
+					}
+					panic(r)
+				}
+			}()
+			body := f()
+			out = strings.Join(g.pending, "\n") + body
+			if len(g.pending) > 0 {
+				out = strings.Join(g.pending, "\n") + "\n" + body
+			}
+			g.pending = nil
+		}()
+		return out
+	}
 	fb := strings.Builder{}
 	for _, n := range order {
-		fb.WriteString(g.translate(g.want[n]) + "\n")
+		n := n
+		fb.WriteString(guarded(n, func() string { return g.translate(g.want[n]) }) + "\n")
 	}
 	for _, f := range g.unit.Funcs {
+		f := f
 		if f.Mode == "assign" {
-			if _, ok := g.funcs[f.Go]; !ok || f.Lean == "" || f.Target == "" {
-				panic(unsupported{fmt.Sprintf("%s: assign spec %s needs an existing function, a lean name and a target", g.unit.Out, f.Go)})
-			}
-			fb.WriteString(g.translateAssign(f) + "\n")
+			fb.WriteString(guarded(f.Lean, func() string {
+				if _, ok := g.funcs[f.Go]; !ok || f.Lean == "" || f.Target == "" {
+					panic(unsupported{fmt.Sprintf("%s: assign spec %s needs an existing function, a lean name and a target", g.unit.Out, f.Go)})
+				}
+				return g.translateAssign(f)
+			}) + "\n")
 		}
 		if f.Mode == "loop" {
-			if _, ok := g.funcs[f.Go]; !ok || f.Lean == "" {
-				panic(unsupported{fmt.Sprintf("%s: loop spec %s needs an existing function and a lean name", g.unit.Out, f.Go)})
-			}
-			fb.WriteString(g.translateLoop(f) + "\n")
+			fb.WriteString(guarded(f.Lean, func() string {
+				if _, ok := g.funcs[f.Go]; !ok || f.Lean == "" {
+					panic(unsupported{fmt.Sprintf("%s: loop spec %s needs an existing function and a lean name", g.unit.Out, f.Go)})
+				}
+				return g.translateLoop(f)
+			}) + "\n")
 		}
 	}
 	// constants: explicitly requested + referenced
@@ -1868,7 +1940,7 @@ func main() {
 				}
 			}()
 			g := &gen{fset: token.NewFileSet(), unit: u, structs: map[string]*structInfo{}, funcs: map[string]*ast.FuncDecl{},
-				consts: map[string]ast.Expr{}, vars: map[string]ast.Expr{}, want: map[string]FuncSpec{}, usedConsts: map[string]bool{}}
+				consts: map[string]ast.Expr{}, vars: map[string]ast.Expr{}, want: map[string]FuncSpec{}, usedConsts: map[string]bool{}, repo: *repo}
 			for _, f := range u.Funcs {
 				if f.Mode != "loop" && f.Mode != "assign" {
 					g.want[f.Go] = f
@@ -1880,6 +1952,12 @@ func main() {
 				panic(err)
 			}
 			fmt.Printf("go2lean: %s: %d structs, %d functions, %d tables\n", u.Out, len(u.Structs), len(u.Funcs), len(u.Tables))
+			for _, n := range g.followed {
+				fmt.Printf("go2lean-followed: %s: %s (called from a translated function, not listed)\n", u.Out, n)
+			}
+			for _, m := range g.skipped {
+				fmt.Printf("go2lean-skipped: %s: %s\n", u.Out, m)
+			}
 		}()
 	}
 	if failed {
